@@ -38,6 +38,8 @@ def cases(tier, seed):
             g["origin"] = [rng.choice([1.0e5, -3.0e5, 2.5e6]) for _ in range(3)]
         if i % 4 == 2:      # header flavour with an integer line before the time (also with whole-number times)
             g["header_int"] = [1, 0, 7][(i // 4) % 3]
+        if i % 7 == 4:      # header tail without the coordinate-system lines
+            g["no_coord"] = True
         cs.append({"gen": g, "sel_seed": seed * 79 + i})
     return cs
 
@@ -165,6 +167,8 @@ def run_one(case, work, rec, gparams, chkname, nconf):
     integer_time = float(m.time) % 1 == 0
     if g.get("header_int") is not None:
         rec.count("header_with_integer_line")
+    if g.get("no_coord"):
+        rec.count("header_without_coordinate_system_lines")
     rec.sample({"checkpoint": gen.describe(m), "nghost": m.nghost, "nspecies": m.nspecies, "time": m.time})
     aniso = len(set(m.dx[0])) > 1
     diff_dist = any(m.sublayout[(lv, "state")]["file_of"] != m.sublayout[(lv, s)]["file_of"] and
